@@ -35,12 +35,21 @@ func history(c *drv.Ctx, bin string, seed int64, idx int) error {
 		return err
 	}
 	defer func() { w.Kill() }()
-	wd, err := mixed.New(w, r, mixed.Opts{Tag: fmt.Sprint(idx), Admin: true})
+	opts := mixed.Opts{Tag: fmt.Sprint(idx), Admin: true}
+	nrestarts := 1 + r.Intn(c.N(2, 4))
+	opsPer := c.N(14, 22)
+	if idx%2 == 1 {
+		// every second history: few data types, short bursts, at least two restarts - what a restart replays (mapping
+		// logs, mutation logs, id records) is appended to again after the first restart and read back by the second
+		opts.Types = [][]string{{"lm", "kv"}, {"lm", "ann"}, {"nj", "kv"}, {"lm", "nj", "roi"}}[(idx/2)%4]
+		opts.Admin = false
+		nrestarts = 2 + r.Intn(c.N(2, 3))
+		opsPer = c.N(6, 10)
+	}
+	wd, err := mixed.New(w, r, opts)
 	if err != nil {
 		return fmt.Errorf("setup: %v; stderr: %s", err, drv.FatalInStderr(w.Stderr()))
 	}
-	nrestarts := 1 + r.Intn(c.N(2, 4))
-	opsPer := c.N(14, 22)
 	for ri := 0; ri <= nrestarts; ri++ {
 		var lastOp string
 		for i := 0; i < opsPer+r.Intn(6); i++ {
@@ -201,14 +210,14 @@ func min(a, b int) int {
 
 func run(c *drv.Ctx) error {
 	c.Rule("mixed histories of well-formed requests over keyvalue, labelmap (merge/cleave/split-supervoxel/renumber/nextlabel), annotation+labelsz synced to the labelmap, neuronjson, roi, uint8blk and DAG ops (commit/newversion/branch/merge); " +
-		"restart points after a seed-chosen number of settled operations, mode clean | abrupt exit | SIGKILL, 1-4 restarts per history, configuration matrix {label index cache, mutation cache} on/off; " +
+		"restart points after a seed-chosen number of settled operations, mode clean | abrupt exit | SIGKILL, 1-4 restarts per history (every second history: two or three data types, short bursts of operations, at least two restarts), configuration matrix {label index cache, mutation cache} on/off; " +
 		"a case is one restart with a full snapshot (repos/info per node and instance, note/log/status, branch resolution, every read endpoint of every instance at every version) compared before/after; non-trivial when the DAG has >=2 versions; distinct by (history, restart, mode, last op)")
 	c.Assume("JSON responses are compared as multisets (array order ignored); error bodies compared by status only; Updated timestamps and MutationID/SavedMutationID (compared with >=) are excluded as the statement allows")
 	bin, err := c.Build("dvidw", "")
 	if err != nil {
 		return err
 	}
-	nh := c.N(16, 300)
+	nh := c.N(28, 400)
 	seeds := make([]int64, nh)
 	for i := range seeds {
 		seeds[i] = c.Rand.Int63()
